@@ -418,8 +418,11 @@ def proof_layer(rep, prop_module, cone_files, extra_targets=(), untrans_filter=N
             _, _, bad = print_assumptions(prop_module, [n for n in names])
         details["assumption_problems"] = bad
     vfiles = [os.path.join(COQ, "theories", f) for f in cone_files]
+    missing = [f for f in vfiles if not os.path.exists(f)]
+    details["missing_cone_files"] = [os.path.relpath(f, COQ) for f in missing]
+    vfiles = [f for f in vfiles if os.path.exists(f)]
     obl = count_obligations(vfiles)
-    all_ok = ok and not problems and not bad and not untrans
+    all_ok = ok and not problems and not bad and not untrans and not missing and bool(names)
     rep.coverage["obligations"] = obl
     rep.coverage["discharged"] = obl if all_ok else 0
     rep.coverage["checker_cmd"] = "cd coq && make -f Makefile.coq theories/Props/%s.vo && coqc Print Assumptions <each theorem>" % prop_module
